@@ -3,6 +3,11 @@ import GoJson.Lemmas.BufSound2
 namespace GoJson.Model.BufDec
 open GoJson GoJson.Spec GoJson.Model.StrDec
 
+theorem exists_cons'' (s : List UInt8) (h : 0 < s.length) : ∃ b t, s = b :: t := by
+  cases s with
+  | nil => simp at h
+  | cons b t => exact ⟨b, t, rfl⟩
+
 def EndOk (rest : List UInt8) : Prop := ∃ c t, rest = c :: t ∧ validEnd c = true
 
 theorem skipWs_ws_append (w s : List UInt8) (hw : AllWs w) : skipWs (w ++ s) = skipWs s := by
